@@ -256,6 +256,9 @@ def run(chk, ctx) -> None:
             n_at += 1
             chk.ob('C07.atomic', f'State.{name}', bad is None, ctx.loc(fi, bad) if bad is not None else fi.loc,
                    'no raise is reachable in an operation after its first state write')
+    # ... nor can the arithmetic of the cascade fail on one of the admitted chip types
+    from .helpers import chip_literals
+    chip_literals(chk, ctx, 'C07.atomic')
     chk.floor('C07.atomic', 60)
 
     _reentrancy(chk, ctx, disc)
